@@ -109,6 +109,7 @@ type Exec struct {
 	res         *PathResult
 	forks       [][]Dec // sibling prefixes discovered on this path
 	ndMemo      map[*Term]int64
+	inlMemo     map[string]*Term
 	refLo       map[*Term]*big.Int
 	refHi       map[*Term]*big.Int
 	depth       int
